@@ -310,8 +310,9 @@ func c10r3(w *World, rr *RuleRun) {
 	for _, fv := range []*types.Var{interval, maxDelta, secret} {
 		for _, st := range w.FieldWrites(w.P.LibFuncs, fv) {
 			fn := enclosingNamed(st.Parent())
-			rr.At(w, st, "tokenServer."+fv.Name()+" written only at construction", fn == ns, "in "+shortFuncName(fn))
-			if s, ok := st.(*ssa.Store); ok && fn == ns {
+			inCtor := fn == ns || w.withinUp(fn, ns)
+			rr.At(w, st, "tokenServer."+fv.Name()+" written only at construction", inCtor, "in "+shortFuncName(fn))
+			if s, ok := st.(*ssa.Store); ok && inCtor {
 				if n, ok := ConstInt(s.Val); ok {
 					if fv == interval {
 						iv = n
@@ -345,9 +346,12 @@ func c10r3(w *World, rr *RuleRun) {
 	rr.Oblige("NewServer", "secret filled from crypto/rand", w.P.Pos(ns.Pos()), okRand, "")
 	// rand.Read fills len(secret) bytes: the buffer must have a fixed non-trivial length
 	nSec := 0
-	for _, st := range w.FieldWrites([]*ssa.Function{ns}, secret) {
+	for _, st := range w.FieldWrites(w.P.LibFuncs, secret) {
 		s, ok := st.(*ssa.Store)
 		if !ok {
+			continue
+		}
+		if fn := enclosingNamed(st.Parent()); fn != ns && !w.withinUp(fn, ns) {
 			continue
 		}
 		nSec++
